@@ -482,3 +482,101 @@ func c20LockFree(w *c20World) bool {
 	}
 	return false
 }
+
+// ---- parallel opens and closes (real goroutines on real cores)
+
+type c20sCase struct {
+	Workers int     `json:"workers"`
+	Rounds  int     `json:"rounds"`
+	IDs     []int32 `json:"ids"` // server shard ids used round-robin by the workers (small ids and ids that make the array grow)
+}
+
+// c20sRun: "bookkeeping for one stream never blocks or corrupts bookkeeping for others" also when streams open and end
+// at the same instant on different cores: every worker opens and ends streams (well-formed metadata, ids from the case)
+// as fast as it can; afterwards no stream is open, so nothing may be listed as active and the lock must be free.
+func c20sRun(c c20sCase) error {
+	w := c20NewWorld(c20Case{Mode: "default", L: 4, R: 4})
+	defer w.cancel()
+	var wg sync.WaitGroup
+	errs := make(chan error, c.Workers)
+	for k := 0; k < c.Workers; k++ {
+		wg.Add(1)
+		go func(k int) {
+			defer wg.Done()
+			for r := 0; r < c.Rounds; r++ {
+				id := c.IDs[(k+r*c.Workers)%len(c.IDs)]
+				e, p, ok := w.open(vfStreamMD(2, 1+k, 1, int(id)))
+				if p != nil {
+					errs <- fmt.Errorf("a panic escaped the handler of a stream for shard %d opened in parallel with others: %v", id, p)
+					return
+				}
+				if !ok {
+					errs <- fmt.Errorf("a stream for shard %d opened in parallel with others never returned", id)
+					return
+				}
+				if e != nil {
+					errs <- fmt.Errorf("a well-formed stream for shard %d opened in parallel with others was not served: %v", id, e)
+					return
+				}
+			}
+		}(k)
+	}
+	wg.Wait()
+	select {
+	case e := <-errs:
+		return e
+	default:
+	}
+	return w.bookkeeping(fmt.Sprintf("%d workers opening and ending %d streams each in parallel (ids %v)", c.Workers, c.Rounds, c.IDs))
+}
+
+func TestVF_C20_Parallel(t *testing.T) {
+	const part = "parallel"
+	if rp := vfshared.ReplayPart(); rp != "" && rp != part {
+		t.Skip()
+	}
+	st := vfshared.NewStats("C20", part, "real parallelism: 4-12 goroutines open and end well-formed streams concurrently, with shard ids mixing small ones and ids that make the observer's array grow (past 1 024, 1 153, 2 368 ...); oracle when all are done: no panic escaped, every stream was served, nothing is listed as active, nothing registered, lock free; schedules come from the Go scheduler on 16 cores, so a failure is reported with the case but may need several runs to reproduce; non-trivial = ids on both sides of a growth threshold in one case")
+	defer st.Flush()
+	run := func(tt interface{ Fatalf(string, ...any) }, c c20sCase) {
+		if err := c20sRun(c); err != nil {
+			c20Fail(tt, st, part, c, err)
+		}
+		lo, hi := false, false
+		for _, id := range c.IDs {
+			if id < 1000 {
+				lo = true
+			} else {
+				hi = true
+			}
+		}
+		st.Case(vfshared.Fingerprint(fmt.Sprintf("%+v", c)), lo && hi)
+		if lo && hi && st.WantSample() {
+			st.Sample(c)
+		}
+	}
+	if f := vfshared.ReplayFile(); f != "" {
+		var c c20sCase
+		if _, err := vfshared.LoadReplay(f, &c); err != nil {
+			t.Fatal(err)
+		}
+		for i := 0; i < 20; i++ { // a schedule-dependent failure may need several attempts
+			run(t, c)
+		}
+		return
+	}
+	rapid.Check(t, func(rt *rapid.T) {
+		c := c20sCase{Workers: rapid.IntRange(4, 12).Draw(rt, "workers"), Rounds: rapid.IntRange(20, 60).Draw(rt, "rounds")}
+		n := rapid.IntRange(2, 6).Draw(rt, "nids")
+		next := int32(1100)
+		for i := 0; i < n; i++ {
+			if rapid.Bool().Draw(rt, "small") {
+				c.IDs = append(c.IDs, rapid.Int32Range(1, 900).Draw(rt, "id"))
+			} else {
+				// strictly growing large ids: each first use makes the array grow
+				next += rapid.Int32Range(200, 4000).Draw(rt, "step")
+				c.IDs = append(c.IDs, next)
+			}
+		}
+		run(rt, c)
+	})
+}
